@@ -29,12 +29,16 @@ func checkC14(c *Ctx) int {
 		ops    int
 	}
 	layouts := []layout{{"small7/A", []uint64{1, 1, 2, 2, 3, 0, 4}, c.pick(1, 2)}, {"small7/C", []uint64{5, 2, 2, 5, 2, 9, 0}, c.pick(1, 2)}}
+	// body splits (and index / mapping re-ingest) with the lower-resolution levels switched on
+	layouts = append(layouts, layout{"small7/S", []uint64{3, 3, 3, 8, 8, 0, 3}, c.pick(1, 2)})
 	if c.thorough() {
 		layouts = append(layouts, layout{"small7/D", []uint64{3, 3, 3, 3, 0, 3, 3}, 2})
 	}
 	var states, trans, edges, levelReads, restarts int64
 	for _, lo := range layouts {
-		gr, s, t := lmExplore(c, g, lo.initSV, lo.ops, lo.ops, l1, l2, true)
+		lmWithSplit = lo.name == "small7/S"
+		gr, s, t := lmExplore(c, g, lo.initSV, lo.ops, lo.ops, l1, l2, !lmWithSplit)
+		lmWithSplit = false
 		states += s
 		trans += t
 		nw := 12
@@ -87,7 +91,7 @@ func checkC14(c *Ctx) int {
 	run.Set("transitions", trans)
 	run.Set("traces_validated_against_impl", edges)
 	run.Set("level_volumes_compared", levelReads)
-	run.Set("rule", "case = one transition of the Labelmap.tla state graph (merge, cleave, split-supervoxel, renumber, mutating voxel write of a region) on a labelmap instance with MaxDownresLevel=2; after the transition and the instance's own idle predicate, the stored level-1 and level-2 volumes (supervoxels and mapped) are read in full and every voxel is compared with the vote TLC evaluates for its class (classes = distinct multisets of the 8 regions / level-1 classes beneath a voxel, computed by brute force from the shared geometry)")
+	run.Set("rule", "case = one transition of the Labelmap.tla state graph (merge, cleave, split-supervoxel, renumber, mutating voxel write of a region, body split, index / mapping re-ingest; ingestion through POST raw and POST blocks?downres=true) on a labelmap instance with MaxDownresLevel=2; after the transition and the instance's own idle predicate, the stored level-1 and level-2 volumes (supervoxels and mapped) are read in full and every voxel is compared with the vote TLC evaluates for its class (classes = distinct multisets of the 8 regions / level-1 classes beneath a voxel, computed by brute force from the shared geometry)")
 	run.Assume = []string{"2x2x2 voting on cubic 32^3 blocks; 4 level-0 blocks incl. a negative block coordinate, parents with 1 and 3 present octants", "labels compared modulo an order-preserving bijection bound from responses"}
 	fmt.Printf("C14: tlc %d states; %d transitions replayed, %d level volumes compared (%d/%d classes) in %.1fs; violations=%d\n",
 		states, edges, levelReads, len(l1.Classes), len(l2.Classes), since(t0), run.Violations())
